@@ -1,6 +1,7 @@
 ----------------------------- MODULE MetaCodecMC -----------------------------
 EXTENDS MetaCodec, Json
-CONSTANTS MaxOps
+CONSTANTS MaxOps,
+          TsOnly    \* TRUE: one count vector only (exhaust timestamp orders instead)
 VARIABLES hist, done
 
 \* scaled value sets: MaxU32 = 7. Timestamps: a low group around 10 (equal, +1, earlier) and a high
@@ -9,7 +10,7 @@ TsVals == {9, 10, 11, 17, 18, 19}
 CntVals == {0, 1, 7, 8}
 
 \* counts vary one field at a time (the fields are independent in the codec)
-Cnts == {<<a, 0, 0>> : a \in CntVals} \cup {<<0, a, 0>> : a \in CntVals} \cup {<<1, 0, a>> : a \in CntVals}
+Cnts == IF TsOnly THEN {<<1, 0, 0>>} ELSE {<<a, 0, 0>> : a \in CntVals} \cup {<<0, a, 0>> : a \in CntVals} \cup {<<1, 0, a>> : a \in CntVals}
 
 MCNext == \/ Open \/ Close
           \/ \E ts \in TsVals, c \in Cnts : Write(ts, c[1], c[2], c[3])
